@@ -718,6 +718,33 @@ def rule_cs_dispatch(cx, rep, port):
                 seen[pol] = tgt
     missing = [x for x in POLICIES if x not in seen]
     if missing:
+        # table-driven dispatch: a table (tuple/list of entries, or dict) that pairs each policy name with method names / references
+        tables = []
+        scope_nodes = list(ast.walk(w)) + [x for st in p.modules['rbql_csv'].body if isinstance(st, ast.Assign) for x in ast.walk(st)]
+        for n in scope_nodes:
+            entries = {}
+            if isinstance(n, (ast.Tuple, ast.List)) and n.elts and all(isinstance(e_, (ast.Tuple, ast.List)) and e_.elts and isinstance(e_.elts[0], ast.Constant) for e_ in n.elts):
+                for e_ in n.elts:
+                    entries[e_.elts[0].value] = e_.elts[1:]
+            elif isinstance(n, ast.Dict) and n.keys and all(isinstance(k_, ast.Constant) for k_ in n.keys):
+                for k_, v_ in zip(n.keys, n.values):
+                    entries[k_.value] = list(v_.elts) if isinstance(v_, (ast.Tuple, ast.List)) else [v_]
+            if entries and set(POLICIES) <= set(entries):
+                tables.append(entries)
+        if tables:
+            for pol in POLICIES:
+                names = []
+                for v_ in tables[0][pol]:
+                    if isinstance(v_, ast.Constant) and isinstance(v_.value, str):
+                        names.append(('polymorphic', v_.value))
+                    elif dotted(v_):
+                        names.append(('polymorphic', dotted(v_)))
+                seen[pol] = seen.get(pol, []) + names
+            missing = []
+    if missing and not seen:
+        rep.undecided('writer dispatch', init, 'how CSVWriter selects its join/preprocess methods by policy was not recognised')
+        return
+    if missing:
         rep.violated('writer dispatch', init, 'CSVWriter has no arm for polic{} {}'.format('y' if len(missing) == 1 else 'ies', missing))
         return
     want_w = {'quoted': 'quote_fields' if port == 'py' else 'quoted_join', 'quoted_rfc': 'quote_fields_rfc' if port == 'py' else 'quoted_join_rfc', 'monocolumn': 'monocolumn_join' if port == 'py' else 'mono_join'}
